@@ -124,6 +124,10 @@ def run_all(chk, fsets, tier):
         chk.rule("R7.content", floor=60 if i == 0 else 0,
                  doc="bit-sequence domain: with Bf the buffered bits and w_0, w_1, ... the words fetched by the call, the upcoming stream is U = Bf ++ w_0 ++ ...; read_bits/peek_bits return exactly the first n bits of U zero-extended (BE: first bit most significant, LE: least), and after read/peek/skip/skip_after_peek/read_unary the buffer holds exactly the rest of U in its valid window and zeros elsewhere; W in {8,16,32,64}, all paths (loops unrolled; read_unary summarised); unbuffered BitReader: read_bits/peek_bits seek to word bit_index/64 and return exactly the n bits at offset bit_index%64 of the fetched words")
         rules_seq.run_parallel(chk, F, fs, [("reader", "R7.content", nm) for nm in ("read_bits", "peek_bits", "skip_bits", "skip_bits_after_peek")] + [("unary", "R7.content", "read_unary"), ("bitreader", "R7.content", "bitreader")])
+    # read_unary by interpretation: the value returned, the bits left, the position
+    import rules_c02u
+    rules_c02u.run_unbuffered(chk, facts.load(fsets[0]), tier)
+    rules_c02u.run_buffered(chk, facts.load(fsets[0]), tier)
     # what the readers' argument assumes about the word sources and about failed look-ahead
     import deps
     F0 = facts.load(fsets[0])
